@@ -9,18 +9,20 @@ Open Scope string_scope.
 Definition first_some {A} (f : A -> option string) (xs : list A) : option string :=
   fold_left (fun acc x => match acc with Some _ => acc | None => f x end) xs None.
 
-Definition scan_pred (W : wsys) (proc lbl_pred lbl : string) (st : gstate) (seedid : string) : string :=
+(* lbl_pred is whatever label the process instance stands at in the stored state (any label but lbl) *)
+Definition scan_pred (W : wsys) (proc lbl : string) (st : gstate) (seedid : string) : string :=
   match lookup proc (w_procs W) with
   | None => ""
   | Some (oset, table) =>
-      match lookup lbl_pred table, lookup lbl table, proc_ids W st oset with
-      | Some (_, tpred), Some (gt, tt0), Ok ids =>
+      match lookup lbl table, proc_ids W st oset with
+      | Some (gt, tt0), Ok ids =>
           let hit :=
               first_some (fun self =>
                 let r := env_of W st self in
                 match e_loc r "pc" with
-                | VStr l =>
-                    if String.eqb l lbl_pred then
+                | VStr lbl_pred =>
+                    match (if String.eqb lbl_pred lbl then None else lookup lbl_pred table) with
+                    | Some (_, tpred) =>
                       first_some (fun ks1 =>
                         match run (w_dtla W) EVAL_FUEL tpred r ks1 with
                         | OCommit g lo _ =>
@@ -42,10 +44,11 @@ Definition scan_pred (W : wsys) (proc lbl_pred lbl : string) (st : gstate) (seed
                             end
                         | _ => None
                         end) (choice_vectors 3)
-                    else None
+                    | None => None
+                    end
                 | _ => None
                 end) ids in
           match hit with Some s => s | None => "" end
-      | _, _, _ => ""
+      | _, _ => ""
       end
   end.
